@@ -15,6 +15,7 @@ import TFV.Generated.Src.SHAGA_update_u
 import TFV.Generated.Src.Lehmer_mean_weighted
 import TFV.Generated.Src.Lehmer_mean_plain
 import TFV.Generated.Src.SHAGA_randn
+import TFV.Generated.Src.SHAGA_randc
 import Mathlib.Tactic.Linarith
 import Mathlib.Tactic.Ring
 
@@ -149,6 +150,27 @@ theorem C15_src_shaga_randn_range (cauchy : Rat → Rat → Nat → Rat) (u scal
     · exact ⟨by norm_num, le_refl _⟩
     · rename_i h0 h1
       exact ⟨not_lt.mp h0, not_lt.mp h1⟩
+
+theorem randc_loop_eq (cauchy : Rat → Rat → Nat → Rat) (n : Nat) (u scale : Rat) (f : Nat) (v : Rat) (k : Nat) :
+    SHAGA_randc.loop cauchy (n : Rat) u scale (f + 1) v k = randcMR n (v :: (List.range' k f).map (cauchy u scale)) := by
+  induction f generalizing v k with
+  | zero =>
+    simp only [SHAGA_randc.loop, randcMR, List.range'_zero, List.map_nil, gt_iff_lt]
+  | succ f ih =>
+    rw [SHAGA_randc.loop, ih]
+    simp only [randcMR, List.range'_succ, List.map_cons, gt_iff_lt]
+
+/-- `SHAGA._randc` = the first of the successive Cauchy values that lies in (0, 5/str_len] (`Adapt.randcMR`; `none` when the first
+    `fuel` values are all rejected - the coded loop would still be running) -/
+theorem C15_src_shaga_randc (cauchy : Rat → Rat → Nat → Rat) (n : Nat) (u scale : Rat) (fuel : Nat) :
+    SHAGA_randc cauchy (n : Rat) u scale (fuel + 1) = randcMR n ((List.range (fuel + 1)).map (cauchy u scale)) := by
+  unfold SHAGA_randc
+  simp only []
+  rw [randc_loop_eq]
+  have : (List.range (fuel + 1)).map (cauchy u scale) = cauchy u scale 0 :: (List.range' 1 fuel).map (cauchy u scale) := by
+    rw [List.range_eq_range', List.range'_succ, List.map_cons]
+  rw [this]
+  cases randcMR n (cauchy u scale 0 :: (List.range' 1 fuel).map (cauchy u scale)) <;> rfl
 
 example : Lehmer_mean_weighted [1/2, 1/4] [1, 3] = some (7/20) := by decide +kernel
 
